@@ -719,7 +719,7 @@ type c18Counter struct {
 	N    int
 }
 
-func (c *c18Counter) Bump() int { c.N++; return c.N }
+func (c *c18Counter) Bump() int    { c.N++; return c.N }
 func (c c18Counter) Label() string { return "L" + c.Name }
 
 // c18Aliases: names of the caller's context that a template also uses for something of its own -- an import alias, a
